@@ -304,6 +304,11 @@ impl<'tx> TxInner<'tx> {
                 let alloc_size = ((size_diff / MIN_ALLOC_SIZE) + 1) * MIN_ALLOC_SIZE;
                 let data = self.db.inner.resize(file, current_size + alloc_size)?;
                 self.pages = Pages::new(data, self.db.inner.pagesize);
+            } else if (self.pages.data.len() as u64) < required_size {
+                // An earlier commit extended the file but failed before it could map it again,
+                // so the file is big enough but the map is not.
+                let data = self.db.inner.resize(file, current_size)?;
+                self.pages = Pages::new(data, self.db.inner.pagesize);
             }
 
             // write the data to the file
